@@ -252,6 +252,31 @@ fn mutate<T: Serialize + DeserializeOwned>(tyname: &str, honest: &T) {
             cases.push((format!("tag byte of {} set to {}", f.path, v), b));
         }
     }
+    // every integer field (balances, amounts, indices): the boundary patterns of its width - conversions applied at decode
+    // time (negation, abs, casts) must not panic on them
+    for f in l.fields.iter() {
+        if let atoms::Kind::Int(w) = f.kind {
+            let w = w as usize;
+            if w == 0 || f.off + w > l.bytes.len() {
+                continue;
+            }
+            let mut pats: Vec<(String, Vec<u8>)> = vec![("all zero".into(), vec![0u8; w]), ("all ones".into(), vec![0xffu8; w])];
+            let mut min = vec![0u8; w];
+            min[w - 1] = 0x80;
+            let mut max = vec![0xffu8; w];
+            max[w - 1] = 0x7f;
+            let mut minp1 = min.clone();
+            minp1[0] = 1;
+            pats.push(("signed minimum".into(), min));
+            pats.push(("signed maximum".into(), max));
+            pats.push(("signed minimum + 1".into(), minp1));
+            for (pn, pb) in pats {
+                let mut b = l.bytes.clone();
+                b[f.off..f.off + w].copy_from_slice(&pb);
+                cases.push((format!("integer field {} set to {}", f.path, pn), b));
+            }
+        }
+    }
     let mut cuts: Vec<usize> = l.fields.iter().map(|f| f.off).collect();
     cuts.push(l.bytes.len().saturating_sub(1));
     cuts.sort();
